@@ -47,6 +47,7 @@ class Ctx(object):
         self.tier = tier
         self.seed = seed
         self.shard = shard
+        self.apis = []
         self.nshards = nshards
         self.outfile = outfile
         self.rng = derive_rng(seed, prop, shard)
